@@ -22,8 +22,8 @@ PSig(role, pt, h, s) == [M0 EXCEPT !.st = "psig", !.role = role, !.pt = pt, !.h 
 WithEnv(A, e) == {[m EXCEPT !.env = e] : m \in A}
 
 (* ---- single field mutations ---- *)
-MutRound(m)  == {[m EXCEPT !.r = x] : x \in {0, 5, 9, 12, 13, RBIG, R63, RMAX}}
-MutSlot(m)   == {[m EXCEPT !.h = x] : x \in {1, -34, -35, ZERO, H62, H63, HMAX}}
+MutRound(m)  == {[m EXCEPT !.r = x] : x \in {0, 5, 9, 12, 13, R31M, R31, R32M, RBIG, R63M, R63, RMAX}}
+MutSlot(m)   == {[m EXCEPT !.h = x] : x \in {1, -34, -35, ZERO, ONE, H31M, H31, H32M, H32, H62, H63M, H63, HMAX}}
 MutSigners(m) == {[m EXCEPT !.sg = x] : x \in {<<>>, <<0>>, <<9>>, <<3>>, <<1, 2>>, <<2, 1>>, <<1, 1>>}}
 MutBody(m)   == {[m EXCEPT !.mt = 9], [m EXCEPT !.sf = "zero"], [m EXCEPT !.body = "empty"], [m EXCEPT !.body = "garbage"],
                  [m EXCEPT !.raw = "empty"], [m EXCEPT !.raw = "junk"],
@@ -78,7 +78,7 @@ AlphaDecidedSmall == {Dec(0, 0, 1, Q3, 1), Prep(0, 0, 1, 1)} \cup {Dec(0, 0, 1, 
 PSigRoles == {<<0, 0>>, <<1, 2>>, <<2, 1>>, <<2, 0>>, <<5, 4>>}            \* <<role, partial type>>
 PSigBase == {PSig(x[1], x[2], h, s) : x \in PSigRoles, h \in {-1, 0}, s \in {1, 2}}
             \cup {Prep(0, h, 1, 1) : h \in {-1, 0}} \cup {Prep(2, h, 1, 1) : h \in {-1, 0}}
-PSigMutOf(m) == {[m EXCEPT !.h = x] : x \in {1, 40, -3, -4, -34, -35, ZERO, H62, H63, HMAX}}
+PSigMutOf(m) == {[m EXCEPT !.h = x] : x \in {1, 40, -3, -4, -34, -35, ZERO, ONE, H31M, H31, H32M, H32, H62, H63M, H63, HMAX}}
                 \cup {[m EXCEPT !.sg = <<x>>] : x \in {0, 9}}
                 \cup {[m EXCEPT !.pm = x] : x \in {"none", "dup", "wsigner", "zsig", "two"}}
                 \cup {[m EXCEPT !.pt = x] : x \in {0, 1, 2, 3, 4, 5, 9}}
@@ -89,7 +89,7 @@ AlphaPSig == PSigBase \cup PSigMutOf(PSig(0, 0, 0, 1)) \cup PSigMutOf(PSig(2, 1,
 TimesPSig == {T(0, 3), T(1, 3)}
 
 (* ---- family "envelope": both eras (the fork is between the two time points), registry classes, routing ---- *)
-EnvKinds == {"none", "good", "good5", "badsig", "unkop", "short", "nomsg"}
+EnvKinds == {"none", "good", "good5", "badsig", "unkop", "short", "nomsg", "badkey1", "badkey2", "badkey3", "badkey4"}
 EnvBase == {Prop(0, 0, 1, 1, 1), Prep(0, 0, 1, 1), Prep(0, 0, 1, 2), Prep(0, -1, 1, 1), PSig(0, 0, 0, 1), Dec(0, 0, 1, Q3, 1)}
 AlphaEnvelope == UNION {WithEnv(EnvBase, e) : e \in EnvKinds}
                  \cup UNION {WithEnv(MutReg(Prep(0, 0, 1, 1)) \cup MutRoute(Prep(0, 0, 1, 1)) \cup MutBody(Prep(0, 0, 1, 1))
@@ -128,6 +128,17 @@ AlphaAttackSigned == WithEnv({Prep(0, 0, 1, 1), Prop(0, 0, 1, 1, 1), PSig(0, 0, 
 AlphaSim == AlphaCore \cup ConsBase({0}, {1, 2, 3}, {1, 2}) \cup {Dec(0, 0, r, sg, 1) : r \in {1, 2, 3}, sg \in {Q3, QAll}}
             \cup {Prep(0, 1, 1, s) : s \in {1, 2}} \cup {PSig(0, 0, h, s) : h \in {0, 1}, s \in {1, 2, 3}}
 TimesSim == {T(0, 1), T(0, 5), T(1, 3)}
+
+(* ---- family "bounds": every round class around the int boundaries with heights of every residue modulo the
+   committee size (the leader arithmetic mixes both), and every height class with every round class ---- *)
+RoundClasses == {0, 1, 2, R31M, R31, R32M, RBIG, R63M, R63, RMAX}
+HeightClasses == {ZERO, ONE, 0, H31M, H31, H32M, H32, H62, H63M, H63, HMAX}
+Residues == {0 - k : k \in 0..(N - 1)}            \* slots 0, -1, ..., -(N-1): every residue modulo N, all inside the attester window
+AlphaBounds == {Prop(0, h, r, s, 1) : h \in Residues, r \in RoundClasses, s \in {1, 2}}
+               \cup {Prop(0, h, r, s, 1) : h \in HeightClasses, r \in RoundClasses, s \in {1, N}}
+               \cup {Prep(0, h, r, 1) : h \in HeightClasses, r \in {1, R31M, R63M, RMAX}}
+               \cup {Dec(0, h, r, Q3, 1) : h \in {0, H63M, HMAX}, r \in {1, R63M, RMAX}}
+               \cup {PSig(0, 0, h, 1) : h \in HeightClasses}
 
 (* ---- N = 7 ---- *)
 AlphaSeven == DecBase \cup DecMut \cup {Prop(0, h, r, s, 1) : h \in {-1, 0}, r \in {1, 2}, s \in {1, 2, 7}}
